@@ -12,10 +12,11 @@
       struct; a map (fixmap / map16 / map32) is read key by key, keys are strings of any str/bin
       form, the value of "Nano" is read with [DecodeInt64] (nil, fixnums, every (u)int code), the
       value of "Id" with [DecodeString] (nil, fixstr, str8/16/32, bin8/16/32), a later occurrence
-      of a key overrides an earlier one, unknown keys have their value skipped ([d.Skip()], NOT
-      modelled: [DOut]); an array (fixarray / array16 / array32) assigns the fields in declaration
-      order, further elements are skipped (not modelled); trailing bytes are ignored; every
-      decoding error gives Go's nil ([DNil]).
+      of a key overrides an earlier one, unknown keys have their value skipped ([d.Skip()] =
+      [skip_vals]: any msgpack value, nested maps / arrays, bin, ext, floats); an array (fixarray /
+      array16 / array32) assigns the fields in declaration order, further elements are skipped;
+      trailing bytes are ignored; every decoding error gives Go's nil ([DNil]).  [DOut] (the model
+      declines) is left only for an exhausted fuel, which cannot happen.
     No proofs in this file. *)
 From Coq Require Import List NArith ZArith Bool.
 From ApiFu Require Import Base.Sexp Relay.CursorCodec TimeConn.TimeModel.
@@ -68,6 +69,56 @@ Definition rd_str (b : bytes) : option (bytes * bytes) :=
       else None
   end.
 
+(** ** [d.Skip()]: skip [count] values.  Nested containers are flattened into the count (a map of
+    n entries is 2n further values, an array n), which consumes the same bytes and fails at the
+    same place as the recursive original; every value consumes at least one byte, so [fuel] =
+    number of remaining bytes + 1 is never exhausted. *)
+Definition skip_bytes (n : N) (b : bytes) : option bytes :=
+  match rd_bytes n b with Some (_, r) => Some r | None => None end.
+Definition skip_len (k : N) (extra : Z) (b : bytes) : option bytes :=
+  match rd_be k b with Some (l, r) => skip_bytes (Z.to_N (l + extra)) r | None => None end.
+
+Fixpoint skip_vals (fuel : nat) (count : Z) (b : bytes) : option bytes :=
+  if (count <=? 0)%Z then Some b
+  else match fuel with
+       | O => None
+       | S fuel' =>
+           match b with
+           | [] => None
+           | c :: r =>
+               let next (o : option bytes) := match o with Some r' => skip_vals fuel' (count - 1)%Z r' | None => None end in
+               let nest (k : N) (mult : Z) := match rd_be k r with
+                                              | Some (n, r') => skip_vals fuel' (count - 1 + mult * n)%Z r'
+                                              | None => None
+                                              end in
+               if (c <=? 127)%N || (224 <=? c)%N then next (Some r)                        (* fixnum *)
+               else if (c <=? 143)%N then skip_vals fuel' (count - 1 + 2 * Z.of_N (c - 128))%Z r   (* fixmap *)
+               else if (c <=? 159)%N then skip_vals fuel' (count - 1 + Z.of_N (c - 144))%Z r       (* fixarray *)
+               else if (c <=? 191)%N then next (skip_bytes (c - 160) r)                   (* fixstr *)
+               else if (c =? 192)%N || (c =? 194)%N || (c =? 195)%N then next (Some r)    (* nil, false, true *)
+               else if (c =? 204)%N || (c =? 208)%N then next (skip_bytes 1%N r)
+               else if (c =? 205)%N || (c =? 209)%N then next (skip_bytes 2%N r)
+               else if (c =? 206)%N || (c =? 210)%N || (c =? 202)%N then next (skip_bytes 4%N r)
+               else if (c =? 207)%N || (c =? 211)%N || (c =? 203)%N then next (skip_bytes 8%N r)
+               else if (c =? 196)%N || (c =? 217)%N then next (skip_len 1%N 0%Z r)            (* bin8, str8 *)
+               else if (c =? 197)%N || (c =? 218)%N then next (skip_len 2%N 0%Z r)
+               else if (c =? 198)%N || (c =? 219)%N then next (skip_len 4%N 0%Z r)
+               else if (c =? 220)%N then nest 2%N 1%Z                                          (* array16 *)
+               else if (c =? 221)%N then nest 4%N 1%Z
+               else if (c =? 222)%N then nest 2%N 2%Z                                          (* map16 *)
+               else if (c =? 223)%N then nest 4%N 2%Z
+               else if (c =? 212)%N then next (skip_bytes 2%N r)                            (* fixext1: type + 1 *)
+               else if (c =? 213)%N then next (skip_bytes 3%N r)
+               else if (c =? 214)%N then next (skip_bytes 5%N r)
+               else if (c =? 215)%N then next (skip_bytes 9%N r)
+               else if (c =? 216)%N then next (skip_bytes 17%N r)
+               else if (c =? 199)%N then next (skip_len 1%N 1%Z r)                            (* ext8: len, type, data *)
+               else if (c =? 200)%N then next (skip_len 2%N 1%Z r)
+               else if (c =? 201)%N then next (skip_len 4%N 1%Z r)
+               else None                                                                   (* 0xc1 *)
+           end
+       end.
+
 (** ** the struct *)
 Definition key_nano : bytes := [78; 97; 110; 111]%N.     (* "Nano" *)
 Definition key_id : bytes := [73; 100]%N.               (* "Id" *)
@@ -95,7 +146,10 @@ Fixpoint dec_map (fuel : nat) (n : Z) (b : bytes) (cur : tcursor) : dec :=
                  | Some (s, r') => dec_map fuel' (n - 1)%Z r' (fst cur, s)
                  | None => DNil
                  end
-               else DOut
+               else match skip_vals (S (length r)) 1 r with
+                    | Some r' => dec_map fuel' (n - 1)%Z r' cur
+                    | None => DNil
+                    end
            end
        end.
 
@@ -107,7 +161,12 @@ Definition dec_array (n : Z) (b : bytes) : dec :=
            if (n =? 1)%Z then DCur (z, [])
            else match rd_str r with
                 | None => DNil
-                | Some (s, r') => if (n =? 2)%Z then DCur (z, s) else DOut
+                | Some (s, r') =>
+                    if (n =? 2)%Z then DCur (z, s)
+                    else match skip_vals (S (length r')) (n - 2)%Z r' with
+                         | Some _ => DCur (z, s)
+                         | None => DNil
+                         end
                 end
        end.
 
